@@ -102,3 +102,90 @@ def reachable(start: Sym) -> List[Sym]:
             if b.attrs.get(a) is not None:
                 st.append(b.attrs[a])
     return order
+
+
+def bounded_traces(start: Sym, L: int = 14, cap: int = 20000):
+    """all executions from `start`, as op-text sequences with T/F marks, cut after L symbols"""
+    out, stack, steps = set(), [(start, ())], 0
+    while stack:
+        b, seq = stack.pop()
+        steps += 1
+        if steps > cap:
+            raise AnalysisError("bounded trace enumeration exceeded its step budget (a cycle that emits nothing?)")
+        ops = tuple(o.name for o in b.attrs["ops"])
+        done = False
+        for o in ops:
+            seq = seq + (o,)
+            if o.split()[0] in ("return_", "retsub", "err"):
+                done = True
+                break
+        if done or len(seq) >= L:
+            out.add(seq[:L])
+            continue
+        if "trueBlock" in b.attrs:
+            t, f = b.attrs.get("trueBlock"), b.attrs.get("falseBlock")
+            if t is None and f is None:
+                out.add(seq)
+                continue
+            stack.append((t, seq + ("T",)))
+            stack.append((f, seq + ("F",)))
+        else:
+            nb = b.attrs.get("nextBlock")
+            if nb is None:
+                out.add(seq)
+            else:
+                stack.append((nb, seq))
+    return out
+
+
+def flat_traces(code: list, L: int = 14, cap: int = 20000):
+    """the same for a flattened component list: Sym ops, OpVal b/bz/bnz with a label argument, label components"""
+    from sa.minieval import OpVal
+
+    labels = {}
+    for i, c in enumerate(code):
+        if isinstance(c, Sym) and c.name == "LABEL":
+            if id(c.attrs["ref"]) in labels:
+                raise AnalysisError("flat code defines a label twice")
+            labels[id(c.attrs["ref"])] = i
+    out, stack, steps = set(), [(0, ())], 0
+    while stack:
+        pc, seq = stack.pop()
+        while True:
+            steps += 1
+            if steps > cap:
+                raise AnalysisError("bounded trace enumeration exceeded its step budget")
+            if len(seq) >= L:
+                out.add(seq[:L])
+                break
+            if pc >= len(code):
+                out.add(seq + ("<runs off the end>",) if seq and seq[-1].split()[0] not in ("return_", "retsub", "err") else seq)
+                break
+            c = code[pc]
+            if isinstance(c, OpVal):
+                tgt = labels.get(id(c.args[0])) if c.args else None
+                if tgt is None:
+                    out.add(seq + (f"<{c.op} to an undefined label>",))
+                    break
+                if c.op == "b":
+                    pc = tgt
+                elif c.op == "bnz":
+                    stack.append((tgt, seq + ("T",)))
+                    seq = seq + ("F",)
+                    pc += 1
+                elif c.op == "bz":
+                    stack.append((tgt, seq + ("F",)))
+                    seq = seq + ("T",)
+                    pc += 1
+                else:
+                    raise AnalysisError(f"unexpected op {c.op} built by flattenBlocks")
+                continue
+            if isinstance(c, Sym) and c.name == "LABEL":
+                pc += 1
+                continue
+            seq = seq + (c.name,)
+            if c.name.split()[0] in ("return_", "retsub", "err"):
+                out.add(seq[:L])
+                break
+            pc += 1
+    return out
